@@ -100,6 +100,9 @@ def gen_case(r, mode, k=None):
             case['cfg'] = dict(max_iter=r.choice([None, None, 1, 2, 3]), optimizer=r.choice(['incremental', 'incremental', 'incremental', 'optimize']))
         opsl = [('solve',), ('solve',), ('solve',), ('find_another',), ('find_another',), ('find_another_var', 0), ('initialize',), ('export',)]
         case['history'] = [r.choice(opsl) for _ in range(r.randint(2, 6))]
+        if not case['objs'] and r.random() < 0.3:
+            # no horizon: the horizon is a variable of the problem, asking for other solutions must not pin it
+            case['prog'] = [('ONewProblem', None) if o[0] == 'ONewProblem' else o for o in case['prog']]
     return case
 
 
